@@ -158,7 +158,7 @@ class Kroupa:
     def _mom0(self, xmin, xmax, a):
         """ First moment """
         if a == 1:
-            return np.log(xmin) - np.log(xmax)
+            return np.log(xmax) - np.log(xmin)
         else:
             return (pow(xmax, 1.0 - a) - pow(xmin, 1.0 - a)) / (1.0 - a)
 
